@@ -4,7 +4,7 @@ H = "harness/C24_unitary.py"
 POSITIONS = ["expr-statement", "assignment-value", "return-value", "branch-predicate", "operand-of-binop", "argument-of-classical-call",
              "element-of-tuple", "annassign-value", "augassign-value"]
 KINDS = ["local", "global", "tensor"]
-SHAPES = ["qubit", "classical", "qubit+nested", "nested+qubit", "classical+nested", "qubit-array"]
+SHAPES = ["qubit", "classical", "qubit+nested", "nested+qubit", "classical+nested", "qubit-array", "array-of-arrays", "nested-tuple", "array-of-options", "classical+3-deep-tuple"]
 
 
 def run(ctx: Ctx) -> int:
@@ -15,7 +15,9 @@ def run(ctx: Ctx) -> int:
         for kind in kinds:
             if ctx.quick and pos not in ((0, 1, 3, 5, 6) if kind == 0 else (0, 3)):
                 continue
-            for shape in range(6):
+            for shape in range(len(SHAPES)):
+                if ctx.quick and shape >= 6 and not (pos == 0 and kind == 0):
+                    continue    # the deeper type shapes exercise contain_qubit_ty, which does not depend on position or callee kind
                 jobs.append(Job(H, "h_call", timeout=t, name=f"h_call[{POSITIONS[pos]},{KINDS[kind]},{SHAPES[shape]}]",
                                 env={"VERIF_C24_POS": pos, "VERIF_C24_KIND": kind, "VERIF_C24_SHAPE": shape}))
     for pos in (0, 3, 5, 6):
@@ -28,7 +30,7 @@ def run(ctx: Ctx) -> int:
                              "BarrierExpr/StateResultExpr/Assign/AnnAssign/AugAssign/PlaceNode, check_cfg_unitary, check_invalid_under_dagger",
                              "tys/qubit.py: contain_qubit_ty; checker/core.py: contains_subscript; ast_util.py: loop_in_ast, find_nodes"]
     ctx.bounds = {"context flags": "all 8 subsets of {control, dagger, power}", "callee flags": "all 8", "nested call flags": "all 8",
-                  "argument shapes": "qubit | classical | qubit,nested | nested,qubit | classical,nested | array of qubits",
+                  "argument shapes": "qubit | classical | qubit,nested | nested,qubit | classical,nested | array of qubits | array of arrays | tuple in tuple | array of options | 3-deep tuple",
                   "positions": POSITIONS, "callee kinds": [KINDS[k] for k in kinds],
                   "dagger syntax": "8 function bodies with loops/assignments at different depths"}
     ctx.outside_claim = ["that the flags of a `with` block reach the body's CFG (CFGBuilder.visit_With / modifier_checker)",
